@@ -260,8 +260,85 @@ fn gen_store_ops_hub<T: HLabel>(rng: &mut Rng, len: usize) -> Vec<Op<T>> {
     ops
 }
 
+/// Attack churn: 300-1500 operations, four in five of them attack insertions and removals over
+/// 12-30 long-lived arguments, so that hundreds of attack slots are created and tombstoned (any
+/// compaction / re-indexing threshold inside the store is crossed, by either kind of removal).
+fn gen_store_ops_churn<T: HLabel>(rng: &mut Rng) -> Vec<Op<T>> {
+    let k = rng.range(12, 30);
+    let universe: Vec<T> = (0..k).map(T::nth).collect();
+    let mut ops: Vec<Op<T>> = universe.iter().cloned().map(Op::AddArg).collect();
+    let len = rng.range(300, 1500);
+    let mut att: Vec<(T, T)> = Vec::new();
+    // phases: mostly inserting, then mostly removing, repeated
+    let mut inserting = true;
+    while ops.len() < len {
+        if rng.pct(1) {
+            inserting = !inserting;
+        }
+        let w: [usize; 4] = if inserting { [12, 3, 1, 1] } else { [3, 12, 1, 1] };
+        match rng.weighted(&w) {
+            0 => {
+                let a = universe[rng.below(k)].clone();
+                let b = universe[rng.below(k)].clone();
+                if !att.contains(&(a.clone(), b.clone())) {
+                    att.push((a.clone(), b.clone()));
+                }
+                ops.push(Op::AddAtt(a, b));
+            }
+            1 => {
+                if att.is_empty() {
+                    inserting = true;
+                    continue;
+                }
+                let i = rng.below(att.len());
+                let (a, b) = att.swap_remove(i);
+                ops.push(Op::DelAtt(a, b));
+            }
+            2 => {
+                let x = universe[rng.below(k)].clone();
+                att.retain(|(a, b)| *a != x && *b != x);
+                ops.push(Op::DelArg(x.clone()));
+                ops.push(Op::AddArg(x));
+            }
+            _ => {
+                if let Some(o) = ops.last() {
+                    let o: Op<T> = o.clone();
+                    ops.push(o);
+                }
+            }
+        }
+        if att.len() > 3 * k * k / 4 {
+            inserting = false;
+        }
+    }
+    ops
+}
+
+fn gen_store_history<T: HLabel>(ctx: &mut Ctx, rng: &mut Rng, len: usize, hub: bool, churn: bool, start: u8) -> Vec<Op<T>> {
+    let mut ops = if hub {
+        ctx.count("histories/hub-shape");
+        gen_store_ops_hub::<T>(rng, len.max(80))
+    } else if churn {
+        ctx.count("histories/attack-churn-shape");
+        gen_store_ops_churn::<T>(rng)
+    } else {
+        gen_store_ops::<T>(rng, len)
+    };
+    if start == 2 {
+        // a text prefix: arguments nth(0..m) and up to 2m distinct attacks among them, then the history
+        let m = rng.range(1, 8);
+        let mut prefix: Vec<Op<T>> = (0..m).map(|k| Op::AddArg(T::nth(k))).collect();
+        for _ in 0..rng.range(0, 2 * m) {
+            prefix.push(Op::AddAtt(T::nth(rng.below(m)), T::nth(rng.below(m))));
+        }
+        prefix.append(&mut ops);
+        ops = prefix;
+    }
+    ops
+}
+
 /// Drives one store history; returns Some((signature, detail)) on the first disagreement.
-fn judge_store<T: HLabel>(ops: &[Op<T>], nwl: bool, ctx: Option<&mut Ctx>) -> Option<(String, Value)> {
+fn judge_store<T: HLabel>(ops: &[Op<T>], nwl: u8, ctx: Option<&mut Ctx>) -> Option<(String, Value)> {
     let mut counts: Vec<String> = Vec::new();
     let r = judge_store_inner(ops, nwl, &mut counts);
     if let Some(c) = ctx {
@@ -273,10 +350,53 @@ fn judge_store<T: HLabel>(ops: &[Op<T>], nwl: bool, ctx: Option<&mut Ctx>) -> Op
     r
 }
 
-fn judge_store_inner<T: HLabel>(ops: &[Op<T>], nwl: bool, counts: &mut Vec<String>) -> Option<(String, Value)> {
+fn judge_store_inner<T: HLabel>(ops: &[Op<T>], nwl: u8, counts: &mut Vec<String>) -> Option<(String, Value)> {
     let mut model: SetModel<T> = SetModel::default();
     let mut start = 0;
-    let mut af: AAFramework<T> = if nwl {
+    let mut af: AAFramework<T> = if nwl == 2 {
+        // the framework starts its life in a reader: arguments nth(0..m) and a duplicate-free list of
+        // attacks are written as a text (ICCMA'23 for usize labels, Aspartix for strings) and read
+        let mut m = 0usize;
+        while start < ops.len() {
+            match &ops[start] {
+                Op::AddArg(l) if *l == T::nth(m) => {
+                    m += 1;
+                    start += 1;
+                }
+                _ => break,
+            }
+        }
+        let mut atts: Vec<(T, T)> = Vec::new();
+        while start < ops.len() {
+            match &ops[start] {
+                Op::AddAtt(a, b)
+                    if (0..m).any(|k| T::nth(k) == *a) && (0..m).any(|k| T::nth(k) == *b) && !atts.contains(&(a.clone(), b.clone())) =>
+                {
+                    atts.push((a.clone(), b.clone()));
+                    start += 1;
+                }
+                _ => break,
+            }
+        }
+        match catch(|| T::via_reader(m, &atts)) {
+            Ok(Ok(af)) => {
+                for k in 0..m {
+                    let l = T::nth(k);
+                    let id = model.ids_given.len();
+                    model.live.insert(l.clone(), id);
+                    model.ids_given.insert(id);
+                    model.ever.insert(l);
+                }
+                for (a, b) in atts.iter() {
+                    model.att.insert((a.clone(), b.clone()));
+                }
+                counts.push("histories/starting-from-a-text-reader".to_string());
+                af
+            }
+            Ok(Err(e)) => return Some(("C12/reader-rejected-a-well-formed-text".to_string(), json!({"error": e}))),
+            Err(p) => return Some((format!("C12/panic/reader/{}", p.site()), p.to_json())),
+        }
+    } else if nwl == 1 {
         let mut init: Vec<T> = Vec::new();
         while start < ops.len() {
             if let Op::AddArg(l) = &ops[start] {
@@ -504,11 +624,11 @@ fn judge_store_inner<T: HLabel>(ops: &[Op<T>], nwl: bool, counts: &mut Vec<Strin
     None
 }
 
-fn store_case_json<T: HLabel>(ops: &[Op<T>], nwl: bool) -> Value {
-    json!({"label_type": T::KIND, "nwl": nwl, "ops": ops.iter().map(|o| o.to_json()).collect::<Vec<_>>()})
+fn store_case_json<T: HLabel>(ops: &[Op<T>], nwl: u8) -> Value {
+    json!({"label_type": T::KIND, "nwl": nwl == 1, "start": nwl, "ops": ops.iter().map(|o| o.to_json()).collect::<Vec<_>>()})
 }
 
-fn shrink_store<T: HLabel>(ops: &[Op<T>], nwl: bool, sig: &str) -> Vec<Op<T>> {
+fn shrink_store<T: HLabel>(ops: &[Op<T>], nwl: u8, sig: &str) -> Vec<Op<T>> {
     let mut cur = ops.to_vec();
     let mut budget = 3000;
     loop {
@@ -531,7 +651,7 @@ fn shrink_store<T: HLabel>(ops: &[Op<T>], nwl: bool, sig: &str) -> Vec<Op<T>> {
     cur
 }
 
-fn eval_store<T: HLabel>(ctx: &mut Ctx, ops: &[Op<T>], nwl: bool) {
+fn eval_store<T: HLabel>(ctx: &mut Ctx, ops: &[Op<T>], nwl: u8) {
     if let Some((sig, detail)) = judge_store(ops, nwl, Some(ctx)) {
         let small = if ctx.replay_mode { ops.to_vec() } else { shrink_store(ops, nwl, &sig) };
         let d = judge_store(&small, nwl, None).map(|(_, d)| d).unwrap_or(detail);
@@ -637,24 +757,23 @@ pub fn run_c12(ctx: &mut Ctx) {
         if i % 256 == 0 {
             ctx.case_begin(&json!({"i": i}));
         }
-        let nwl = rng.pct(25);
+        let nwl: u8 = match rng.below(100) {
+            0..=24 => 1,
+            25..=39 => 2,
+            _ => 0,
+        };
         let kind = rng.below(8);
         let hub = rng.pct(10);
+        let churn = !hub && rng.pct(if ctx.tier == Tier::Thorough { 3 } else { 1 });
         crate::report::guarded(ctx, |ctx| match kind {
             0 => eval_labelset::<usize>(ctx, &mut rng, len),
             1 => eval_labelset::<String>(ctx, &mut rng, len),
             k if k % 2 == 0 => {
-                let ops = if hub { gen_store_ops_hub::<usize>(&mut rng, len.max(80)) } else { gen_store_ops::<usize>(&mut rng, len) };
-                if hub {
-                    ctx.count("histories/hub-shape");
-                }
+                let ops = gen_store_history::<usize>(ctx, &mut rng, len, hub, churn, nwl);
                 eval_store(ctx, &ops, nwl);
             }
             _ => {
-                let ops = if hub { gen_store_ops_hub::<String>(&mut rng, len.max(80)) } else { gen_store_ops::<String>(&mut rng, len) };
-                if hub {
-                    ctx.count("histories/hub-shape");
-                }
+                let ops = gen_store_history::<String>(ctx, &mut rng, len, hub, churn, nwl);
                 eval_store(ctx, &ops, nwl);
             }
         });
@@ -662,7 +781,10 @@ pub fn run_c12(ctx: &mut Ctx) {
 }
 
 pub fn replay_c12(ctx: &mut Ctx, case: &Value) -> Result<(), String> {
-    let nwl = case.get("nwl").and_then(|x| x.as_bool()).unwrap_or(false);
+    let nwl: u8 = match case.get("start").and_then(|x| x.as_u64()) {
+        Some(s) => s as u8,
+        None => u8::from(case.get("nwl").and_then(|x| x.as_bool()).unwrap_or(false)),
+    };
     let ops = case.get("ops").and_then(|x| x.as_array()).ok_or("no ops (LabelSet cases are not replayable from file)")?;
     match case.get("label_type").and_then(|x| x.as_str()) {
         Some("usize") => {
@@ -909,8 +1031,39 @@ fn ws(rng: &mut Rng, min: usize) -> String {
     (0..k).map(|_| if rng.pct(85) { ' ' } else { '\t' }).collect()
 }
 
+/// One text in 25 is "large": 18-60 arguments with one or two hubs (many outgoing and incoming
+/// attacks, self-attacks on their targets), so that per-argument attack lists get long.
+fn hub_attacks(rng: &mut Rng, n: usize) -> Vec<(usize, usize)> {
+    let mut atts = Vec::new();
+    let hubs: Vec<usize> = (0..rng.range(1, 2)).map(|_| rng.below(n)).collect();
+    for _ in 0..rng.range(0, 12) {
+        let a = rng.below(n);
+        atts.push((a, a));
+    }
+    for h in hubs.iter() {
+        let mut targets: Vec<usize> = (0..n).collect();
+        rng.shuffle(&mut targets);
+        let k = rng.range(n / 2, n);
+        for t in targets.iter().take(k) {
+            atts.push((*h, *t));
+        }
+        rng.shuffle(&mut targets);
+        for t in targets.iter().take(rng.range(0, n / 2)) {
+            atts.push((*t, *h));
+        }
+    }
+    for _ in 0..rng.range(0, n) {
+        atts.push((rng.below(n), rng.below(n)));
+    }
+    if rng.pct(50) {
+        rng.shuffle(&mut atts);
+    }
+    atts
+}
+
 pub fn gen_iccma_text(rng: &mut Rng) -> (Vec<u8>, usize, Vec<(usize, usize)>) {
-    let n = if rng.pct(8) { 0 } else { rng.range(1, 9) };
+    let large = rng.pct(4);
+    let n = if large { rng.range(18, 60) } else if rng.pct(8) { 0 } else { rng.range(1, 9) };
     let eol = if rng.pct(20) { "\r\n" } else { "\n" };
     let mut s = String::new();
     for _ in 0..rng.weighted(&[6, 2, 1]) {
@@ -919,9 +1072,12 @@ pub fn gen_iccma_text(rng: &mut Rng) -> (Vec<u8>, usize, Vec<(usize, usize)>) {
     s.push_str(&format!("{}p{}af{}{}{}{}", ws(rng, 0), ws(rng, 1), ws(rng, 1), n, ws(rng, 0), eol));
     let mut atts = Vec::new();
     if n > 0 {
-        let m = rng.range(0, 14);
-        for _ in 0..m {
-            let (a, b) = if !atts.is_empty() && rng.pct(12) {
+        let planned = if large { hub_attacks(rng, n) } else { Vec::new() };
+        let m = if large { planned.len() } else { rng.range(0, 14) };
+        for k in 0..m {
+            let (a, b) = if large {
+                planned[k]
+            } else if !atts.is_empty() && rng.pct(12) {
                 *rng.pick(&atts)
             } else if rng.pct(12) {
                 let a = rng.below(n);
@@ -963,7 +1119,8 @@ fn gen_ident(rng: &mut Rng) -> String {
 }
 
 pub fn gen_apx_text(rng: &mut Rng) -> (Vec<u8>, Vec<String>, Vec<(usize, usize)>) {
-    let n = if rng.pct(8) { 0 } else { rng.range(1, 8) };
+    let large = rng.pct(4);
+    let n = if large { rng.range(18, 60) } else if rng.pct(8) { 0 } else { rng.range(1, 8) };
     let eol = if rng.pct(20) { "\r\n" } else { "\n" };
     let mut names: Vec<String> = Vec::new();
     while names.len() < n {
@@ -990,8 +1147,12 @@ pub fn gen_apx_text(rng: &mut Rng) -> (Vec<u8>, Vec<String>, Vec<(usize, usize)>
     }
     let mut atts = Vec::new();
     if n > 0 {
-        for _ in 0..rng.range(0, 12) {
-            let (a, b) = if !atts.is_empty() && rng.pct(12) {
+        let planned = if large { hub_attacks(rng, n) } else { Vec::new() };
+        let m = if large { planned.len() } else { rng.range(0, 12) };
+        for k in 0..m {
+            let (a, b) = if large {
+                planned[k]
+            } else if !atts.is_empty() && rng.pct(12) {
                 *rng.pick(&atts)
             } else {
                 (rng.below(n), rng.below(n))
@@ -1253,6 +1414,10 @@ fn judge_text(ctx: &mut Ctx, iccma: bool, class: &str, bytes: &[u8], listed_cat:
                 );
             } else {
                 ctx.count(&format!("agreed-accept/{}", fmt));
+                if names.len() >= 18 {
+                    ctx.count(&format!("agreed-accept/{}/18-60-arguments-with-hubs", fmt));
+                    ctx.maximum("longest_accepted_attack_list", atts.len() as u64);
+                }
                 if !atts.is_empty() {
                     let mut h = Hasher64::new();
                     h.bytes(bytes);
@@ -1680,7 +1845,33 @@ fn eval_c14_answers(ctx: &mut Ctx, rng: &mut Rng) {
     let short = rng.pct(30);
     // ICCMA writer over usize labels
     {
-        let labels: Vec<usize> = (0..n).map(|i| if rng.pct(50) { i + 1 } else { 1000 * (i + 1) + rng.below(999) }).collect();
+        // labels of every magnitude: small, thousands, around 2^32, 10^10 and beyond, up to usize::MAX
+        let huge = rng.pct(10);
+        if huge {
+            ctx.count("extensions_with_labels_beyond_u32");
+        }
+        let mut labels: Vec<usize> = (0..n)
+            .map(|i| {
+                if huge && rng.pct(60) {
+                    match rng.below(6) {
+                        0 => u32::MAX as usize - 3 + rng.below(8),
+                        1 => 9_999_999_990 + rng.below(30),
+                        2 => 10usize.pow(rng.range(10, 19) as u32) + rng.below(1000),
+                        3 => usize::MAX - rng.below(1000),
+                        4 => (rng.next_u64() >> rng.below(30)) as usize,
+                        _ => 10usize.pow(rng.range(10, 18) as u32) * rng.range(1, 9),
+                    }
+                } else if rng.pct(50) {
+                    i + 1
+                } else {
+                    1000 * (i + 1) + rng.below(999)
+                }
+            })
+            .collect();
+        if huge {
+            let mut seen = BTreeSet::new();
+            labels.retain(|l| seen.insert(*l));
+        }
         let aset = ArgumentSet::new_with_labels(&labels);
         let keep = if n > 9 { 90 } else { 50 };
         let mut chosen: Vec<&Argument<usize>> = aset.iter().filter(|_| rng.pct(keep)).collect();
@@ -1854,7 +2045,7 @@ pub fn miri_smoke(seed: u64, n_hist: u64, n_inputs: u64) -> Result<(u64, u64), S
     for i in 0..n_hist {
         let mut rng = Rng::from_path(&[seed, 0x12, i]);
         let len = rng.range(5, 30);
-        let nwl = rng.pct(25);
+        let nwl: u8 = rng.below(3) as u8;
         if i % 2 == 0 {
             let ops = gen_store_ops::<usize>(&mut rng, len);
             if let Some((sig, d)) = judge_store(&ops, nwl, None) {
